@@ -1069,7 +1069,13 @@ impl Model {
                 self.maint_trail.push('F');
                 self.ckpt_epoch += 1;
             }
-            Op::Audit | Op::Analyze => {}
+            Op::Analyze => {
+                // ANALYZE rewrites the statistics in every catalogue row: engine state the model does not hold
+                if !self.maint_trail.ends_with('A') {
+                    self.maint_trail.push('A');
+                }
+            }
+            Op::Audit => {}
             Op::Auto(s) | Op::In(_, s) if s.is_read() => {}
             _ => self.maint_trail.clear(),
         }
